@@ -238,6 +238,10 @@ def check_fault(case, f, m, out, log, idx):
                 out.violate('missing', 'missing-error|' + sigbase, '%s: expected segment error %s at position %d; got %r' % (
                     tag, want, pos_in_set, [(e.level, e.code, e.seg_id, e.seg_count) for e in r.errors]), fault=f)
             return
+        if kind in ('missing_required_seg', 'missing_required_loop') and len(hit) > 1:
+            out.violate('extra', 'reported-twice|' + sigbase, '%s: the one missing %s is reported %d times, at positions %r' % (
+                tag, 'loop' if kind == 'missing_required_loop' else 'segment', len(hit), [e.seg_count for e in hit]), fault=f)
+            return
         extra = [e for e in here if e not in hit and not (kind in ('unknown_seg', 'misplaced_seg') and e.level == 'seg')]
         if kind == 'loop_over_max':
             extra = []
